@@ -41,7 +41,22 @@ type Trace05 struct {
 	Text   string    `json:"text"`
 	Faults []Fault05 `json:"faults"`
 	Sweep  bool      `json:"sweep,omitempty"` // exhaustive single-codeword sweep over this symbol
+	// Prev lists the (damaged) symbols decoded earlier by the same decoder
+	// objects (instance-reuse history); empty = fresh decoders
+	Prev []*Trace05 `json:"prev,omitempty"`
 }
+
+// sharedDec, when non-nil, is the pair of long-lived decoder objects every
+// decode goes through (an application keeps one decoder and feeds it symbol
+// after symbol); nil = a fresh decoder per decode.
+var sharedDec *decoders05
+
+type decoders05 struct {
+	qr *qrdec.Decoder
+	dm *dmdec.Decoder
+}
+
+func newDecoders05() *decoders05 { return &decoders05{qrdec.NewDecoder(), dmdec.NewDecoder()} }
 
 var libLevels = []qrdec.ErrorCorrectionLevel{qrdec.ErrorCorrectionLevel_L, qrdec.ErrorCorrectionLevel_M, qrdec.ErrorCorrectionLevel_Q, qrdec.ErrorCorrectionLevel_H}
 
@@ -88,7 +103,11 @@ func (s *symbol05) decode(m [][]bool) (d decoded) {
 	}()
 	bm := toBitMatrix(m)
 	if s.tr.Sym == "qr" {
-		res, err := qrdec.NewDecoder().Decode(bm, nil)
+		qd := qrdec.NewDecoder()
+		if sharedDec != nil {
+			qd = sharedDec.qr
+		}
+		res, err := qd.Decode(bm, nil)
 		if err != nil {
 			d.err = err
 			return
@@ -99,7 +118,11 @@ func (s *symbol05) decode(m [][]bool) (d decoded) {
 		}
 		return decoded{text: res.GetText(), raw: res.GetRawBytes(), ec: res.GetECLevel()}
 	}
-	res, err := dmdec.NewDecoder().Decode(bm)
+	dd := dmdec.NewDecoder()
+	if sharedDec != nil {
+		dd = sharedDec.dm
+	}
+	res, err := dd.Decode(bm)
 	if err != nil {
 		d.err = err
 		return
@@ -612,6 +635,9 @@ func jobs05(tier string) []job05 {
 	}
 	for i := 0; i < ns; i++ {
 		j = append(j, job05{kind: "seeded"})
+		if i%4 == 0 {
+			j = append(j, job05{kind: "reuse"})
+		}
 	}
 	return j
 }
@@ -645,6 +671,72 @@ func exec05(tr *Trace05, probe func(string)) (outcome string, f *fail) {
 	return "ok", s.check(tr.Faults, probe)
 }
 
+// execChain05 executes tr after its Prev history on fresh shared decoder
+// objects (or on a fresh decoder per decode when there is no history).
+func execChain05(tr *Trace05, probe func(string)) (string, *fail) {
+	old := sharedDec
+	defer func() { sharedDec = old }()
+	if len(tr.Prev) == 0 {
+		sharedDec = nil
+		return exec05(tr, probe)
+	}
+	sharedDec = newDecoders05()
+	for _, p := range tr.Prev {
+		q := *p
+		q.Prev = nil
+		exec05(&q, func(string) {})
+	}
+	q := *tr
+	q.Prev = nil
+	out, f := exec05(&q, probe)
+	if f != nil {
+		f.detail += fmt.Sprintf(" [the same decoder object had decoded %d other symbol(s) before]", len(tr.Prev))
+	}
+	return out, f
+}
+
+// reportWithHistory05 reports a failure seen on re-used decoder objects: as a
+// single-symbol trace if it also fails on a fresh decoder, otherwise with the
+// minimised list of symbols decoded before on the same objects.
+func reportWithHistory05(c *kit.Ctx, tr *Trace05, f *fail, hist []*Trace05) {
+	t1 := *tr
+	t1.Prev = nil
+	if _, f2 := execChain05(&t1, func(string) {}); f2 != nil {
+		report05(c, &t1, f2, true)
+		return
+	}
+	t2 := *tr
+	t2.Prev = hist
+	_, f3 := execChain05(&t2, func(string) {})
+	if f3 == nil {
+		report05(c, &t1, f, false) // will not reproduce: surfaces as a harness error, never silently dropped
+		return
+	}
+	keep := kit.DDMinN(len(hist), 200, func(idx []int) bool {
+		t3 := *tr
+		t3.Prev = nil
+		for _, i := range idx {
+			t3.Prev = append(t3.Prev, hist[i])
+		}
+		if len(t3.Prev) == 0 {
+			return false
+		}
+		_, f4 := execChain05(&t3, func(string) {})
+		return f4 != nil && f4.class == f3.class
+	})
+	t2.Prev = nil
+	for _, i := range keep {
+		t2.Prev = append(t2.Prev, hist[i])
+	}
+	if _, f5 := execChain05(&t2, func(string) {}); f5 != nil {
+		f3 = f5
+	} else {
+		t2.Prev = hist
+	}
+	f3.class += "/reused-decoder"
+	report05(c, &t2, f3, false)
+}
+
 // sweep enumerates a single-codeword fault at every codeword of every block.
 func (s *symbol05) sweep(r *kit.RNG, probe func(string), count *int64) *fail {
 	for b := 0; b < s.numBlocks(); b++ {
@@ -672,7 +764,7 @@ func (s *symbol05) sweep(r *kit.RNG, probe func(string), count *int64) *fail {
 
 func min05(tr *Trace05, class string) *Trace05 {
 	test := func(t *Trace05) bool {
-		_, f := exec05(t, func(string) {})
+		_, f := execChain05(t, func(string) {})
 		return f != nil && f.class == class
 	}
 	cur := *tr
@@ -718,6 +810,34 @@ func min05(tr *Trace05, class string) *Trace05 {
 	return &cur
 }
 
+// seededTrace05 draws one symbol (symbology, size, level, mask, sender, payload).
+func seededTrace05(r *kit.RNG) *Trace05 {
+	var tr *Trace05
+	if r.Chance(3, 5) {
+		v := r.Range(1, 40)
+		if r.Chance(1, 4) {
+			v = []int{1, 6, 7, 9, 10, 26, 27, 40}[r.Intn(8)]
+		}
+		tr = &Trace05{Sym: "qr", Sender: "library", V: v, Level: r.Intn(4), Mask: r.Intn(8)}
+		if r.Chance(1, 4) {
+			tr.Sender = "reference"
+		}
+		tr.Text = qrPayload(r, v, tr.Level, tr.Sender)
+	} else {
+		i := r.Intn(len(dmref.Symbols))
+		if r.Chance(1, 5) {
+			i = 23 // 144x144: the special interleave
+		}
+		s := &dmref.Symbols[i]
+		tr = &Trace05{Sym: "dm", Sender: "library", Rows: s.Rows, Cols: s.Cols}
+		if r.Chance(1, 4) {
+			tr.Sender = "reference"
+		}
+		tr.Text = dmPayload(r, s, tr.Sender)
+	}
+	return tr
+}
+
 // C05 returns the runner spec.
 func C05() *kit.Spec {
 	cache := map[string][]job05{}
@@ -734,7 +854,7 @@ func C05() *kit.Spec {
 		Engine:   "chansim",
 		Level:    "fault_enumeration",
 		Rule: "one evaluation = one damaged symbol decoded by the real decoder. Sender: the library's own encoder (primary) or the harness's reference sender; medium: module matrix with faults placed through the harness's independent layout model; budget: <= floor(ec/2) codewords per RS block (arbitrary non-zero 8-bit deltas), <= 3 flips in each format copy, <= 3 in each version copy. " +
-			"Enumerated: a single-codeword fault at every codeword of every block of one symbol per (QR version, level) [all 160 pairs; thorough: ten payload/mask choices each] and of all 30 Data Matrix sizes. Seeded: multi-fault plans incl. every block at exactly t with 3 flips in all four info copies. distinct_nontrivial = distinct seeded (symbol, plan) hashes with at least one fault",
+			"Enumerated: a single-codeword fault at every codeword of every block of one symbol per (QR version, level) [all 160 pairs; thorough: ten payload/mask choices each] and of all 30 Data Matrix sizes. Seeded: multi-fault plans incl. every block at exactly t with 3 flips in all four info copies. Reuse: chains of 3-8 symbols of different shapes, two damage plans each, through one long-lived decoder pair (a failure is reported with the minimised list of symbols the decoder object had seen before). distinct_nontrivial = distinct seeded (symbol, plan) hashes with at least one fault",
 		StateMetric: "distinct (symbol shape, sender, payload, fault plan) hashes; per-sweep counters",
 		Assumptions: []string{
 			"faults are placed by the harness's own QR/Data Matrix layout models; every library-made symbol is first read through that layout and must show zero reference syndromes (otherwise the symbol is skipped and counted, never reported)",
@@ -768,29 +888,56 @@ func C05() *kit.Spec {
 					tr.Sender = "reference"
 				}
 				tr.Text = dmPayload(r, s, tr.Sender)
-			default:
-				if r.Chance(3, 5) {
-					v := r.Range(1, 40)
-					if r.Chance(1, 4) {
-						v = []int{1, 6, 7, 9, 10, 26, 27, 40}[r.Intn(8)]
+			case "reuse":
+				// one long-lived decoder pair fed a chain of damaged symbols of
+				// different shapes (so block lengths and EC counts change between calls)
+				sharedDec = newDecoders05()
+				defer func() { sharedDec = nil }()
+				var hist []*Trace05
+				n := r.Range(3, 8)
+				for k := 0; k < n; k++ {
+					t := seededTrace05(r)
+					if r.Chance(1, 2) {
+						// small shapes: many different EC counts per unit of work
+						if t.Sym == "qr" {
+							t.V = r.Range(1, 8)
+							t.Text = qrPayload(r, t.V, t.Level, t.Sender)
+						} else {
+							sy := &dmref.Symbols[r.Intn(len(dmref.Symbols))]
+							t.Rows, t.Cols = sy.Rows, sy.Cols
+							t.Text = dmPayload(r, sy, t.Sender)
+						}
 					}
-					tr = &Trace05{Sym: "qr", Sender: "library", V: v, Level: r.Intn(4), Mask: r.Intn(8)}
-					if r.Chance(1, 4) {
-						tr.Sender = "reference"
+					sy, _, f := send(t)
+					if f != nil || sy == nil {
+						continue
 					}
-					tr.Text = qrPayload(r, v, tr.Level, tr.Sender)
-				} else {
-					i := r.Intn(len(dmref.Symbols))
-					if r.Chance(1, 5) {
-						i = 23 // 144x144: the special interleave
+					out, f := sy.control(func(string) {})
+					if f != nil {
+						reportWithHistory05(c, t, f, hist)
+						return
 					}
-					s := &dmref.Symbols[i]
-					tr = &Trace05{Sym: "dm", Sender: "library", Rows: s.Rows, Cols: s.Cols}
-					if r.Chance(1, 4) {
-						tr.Sender = "reference"
+					if out != "ok" {
+						continue
 					}
-					tr.Text = dmPayload(r, s, tr.Sender)
+					for q := 0; q < 2; q++ {
+						t2 := *t
+						t2.Faults = sy.randomPlan(r)
+						c.Eval(kit.HashJSON(&t2)^uint64(len(hist)), len(t2.Faults) > 0)
+						c.Steps(1)
+						if f := sy.check(t2.Faults, probe); f != nil {
+							reportWithHistory05(c, &t2, f, hist)
+							return
+						}
+						hist = append(hist, &t2)
+					}
+					c.Count("reuse.symbols_decoded_on_a_reused_decoder", 1)
 				}
+				c.Count("reuse.chains", 1)
+				c.Event(fmt.Sprintf("reuse %d", len(hist)))
+				return
+			default:
+				tr = seededTrace05(r)
 			}
 			s, skip, f := send(tr)
 			if f != nil {
@@ -852,8 +999,11 @@ func C05() *kit.Spec {
 				return
 			}
 			watchCtx = c
-			_, f := exec05(tr, func(string) {})
+			_, f := execChain05(tr, func(string) {})
 			if f != nil {
+				if len(tr.Prev) > 0 {
+					f.class += "/reused-decoder"
+				}
 				report05(c, tr, f, false)
 			}
 		},
